@@ -265,7 +265,18 @@ def rf_events(cfg, tid, seq0, obj, fp, tab, time, sched, ladder_nx: int | None =
     with warnings.catch_warnings():
         warnings.simplefilter("ignore")
         rf_flux = np.array(obj.recovery_factor(), dtype=float)
-        has_density = "density" in fp.pvt_props
+        has_density = kind == "single" and "density" in fp.pvt_props
+        if has_density:
+            # the in-place clauses presuppose a table whose density increases with scaled pseudopressure over the
+            # range the run can visit (the shipped Haynesville table holds Z = 5.0 rows above 12290 psi)
+            pp = np.asarray(tab["pressure"], dtype=float)
+            dd = np.asarray(tab["density"], dtype=float)
+            lo_p = float(np.min(sched)) if sched is not None else float(cfg["pf"])
+            a = max(0, int(np.searchsorted(pp, lo_p, side="right")) - 1)
+            b = min(len(pp) - 1, int(np.searchsorted(pp, cfg["pi"], side="left")))
+            if not np.all(np.diff(dd[a:b + 1]) > 0):
+                has_density = False
+                raw["density_skipped"] = "table density not increasing on the visited range"
         rf_dens = np.array(obj.recovery_factor(density=True), dtype=float) if has_density else None
     nt = len(time)
     upto = nt
